@@ -272,6 +272,25 @@ def run_item(ctx, item):
         # parts need not have distinct ids (the first parts of two separately loaded files are both "P1")
         parts[rng.randrange(1, len(parts))].id = parts[0].id
         ctx.extra["merges_with_a_later_part_named_like_the_first"] += 1
+    if rng.random() < 0.2:
+        # a part without any note or rest that still has something to say (chord symbols, cues, an analysis layer)
+        q_ = rng.choice(cands)
+        last_q = max(float(p_.quarter_map(p_.last_point.t)) for p_ in parts)
+        extra = S.Part(f"P{len(parts) + 1}", "analysis", quarter_duration=q_)
+        for k_ in range(rng.randint(1, 4)):
+            t_ = rng.randint(0, max(1, int(last_q * q_)))
+            kind_ = rng.choice(["chord", "words", "harmony", "dyn"])
+            if kind_ == "chord":
+                extra.add(S.ChordSymbol(rng.choice("CDEFGAB"), rng.choice(["major", "minor"])), t_)
+            elif kind_ == "words":
+                extra.add(S.Words(rng.choice(["cue: horns", "solo", "tutti"])), t_)
+            elif kind_ == "harmony":
+                extra.add(S.Harmony(rng.choice(["I", "V7", "ii6"])), t_)
+            else:
+                extra.add(S.ConstantLoudnessDirection(rng.choice(["p", "f"])), t_)
+        parts.insert(rng.randrange(1, len(parts) + 1), extra)
+        n_parts = len(parts)
+        ctx.extra["merges_with_a_part_without_notes_or_rests"] += 1
     if rng.random() < 0.3:
         # a crowded part: more voices than the four per staff that the automatic renumbering reserves
         p = parts[rng.randrange(len(parts))]
